@@ -404,24 +404,66 @@ where
 
         let mut last_ping = Instant::now();
 
+        #[cfg(humphrey_verif)]
+        {
+            crate::verif_trace::push(format!("start,{}", crate::verif_trace::ns(last_ping)));
+            crate::verif_trace::flush();
+        }
+
         loop {
+            #[cfg(humphrey_verif)]
+            crate::verif_trace::begin();
+
             if let Some(ref s) = self.shutdown {
                 if s.try_recv().is_ok() {
+                    #[cfg(humphrey_verif)]
+                    {
+                        crate::verif_trace::push("shutdown".to_string());
+                        crate::verif_trace::flush();
+                    }
                     break;
                 }
             }
 
             let keys: Vec<SocketAddr> = self.streams.keys().copied().collect();
 
+            #[cfg(humphrey_verif)]
+            crate::verif_trace::quiet(
+                keys.iter()
+                    .fold("keys".to_string(), |acc, a| format!("{},{}", acc, a)),
+            );
+
             // Calculate whether a ping should be sent this iteration.
             let will_ping = self
                 .heartbeat
                 .as_ref()
                 .map(|config| {
+                    #[cfg(humphrey_verif)]
+                    let verif_before = crate::verif_trace::now_ns();
+
                     let will_ping = last_ping.elapsed() >= config.interval;
+
+                    #[cfg(humphrey_verif)]
+                    let verif_after = crate::verif_trace::now_ns();
 
                     if will_ping {
                         last_ping = Instant::now();
+                    }
+
+                    #[cfg(humphrey_verif)]
+                    {
+                        let event = format!(
+                            "wp,{},{},{},{}",
+                            verif_before,
+                            verif_after,
+                            will_ping as u8,
+                            crate::verif_trace::ns(last_ping)
+                        );
+                        if will_ping {
+                            crate::verif_trace::push(event);
+                        } else {
+                            crate::verif_trace::quiet(event);
+                        }
                     }
 
                     will_ping
@@ -430,12 +472,29 @@ where
 
             // Check for messages and status on each stream.
             for addr in keys {
+                #[cfg(humphrey_verif)]
+                let verif_last_pong = self.streams.get(&addr).map(|s| s.inner.last_pong);
+
                 'inner: loop {
                     let stream = self.streams.get_mut(&addr).unwrap();
 
                     match stream.inner.recv_nonblocking() {
                         Restion::Ok(message) => {
+                            #[cfg(humphrey_verif)]
+                            crate::verif_trace::push(format!(
+                                "r,{},m,{}",
+                                addr,
+                                crate::verif_trace::digest(&message)
+                            ));
+
                             if let Some(handler) = &message_handler {
+                                #[cfg(humphrey_verif)]
+                                crate::verif_trace::push(format!(
+                                    "d,m,{},{}",
+                                    addr,
+                                    crate::verif_trace::digest(&message)
+                                ));
+
                                 let async_stream = AsyncStream::new(
                                     addr,
                                     self.message_sender.clone(),
@@ -450,8 +509,16 @@ where
                                 });
                             }
                         }
+                        #[cfg(humphrey_verif)]
+                        Restion::Err(ref verif_error) if {
+                            crate::verif_trace::push(format!("r,{},err,{:?}", addr, verif_error));
+                            false
+                        } => {}
                         Restion::Err(_) => {
                             if let Some(handler) = &disconnect_handler {
+                                #[cfg(humphrey_verif)]
+                                crate::verif_trace::push(format!("d,x,{}", addr));
+
                                 let async_stream = AsyncStream::disconnected(
                                     addr,
                                     self.message_sender.clone(),
@@ -465,18 +532,49 @@ where
                                     .execute(move || (cloned_handler)(async_stream, cloned_state));
                             }
 
+                            #[cfg(humphrey_verif)]
+                            crate::verif_trace::push(format!("rm,{}", addr));
+
                             self.streams.remove(&addr);
                             break 'inner;
                         }
+                        #[cfg(humphrey_verif)]
+                        Restion::None if {
+                            crate::verif_trace::quiet(format!("r,{},none", addr));
+                            false
+                        } => {}
                         Restion::None => break 'inner,
                     }
                 }
 
                 if let Some(stream) = self.streams.get_mut(&addr) {
+                    #[cfg(humphrey_verif)]
+                    if verif_last_pong != Some(stream.inner.last_pong) {
+                        crate::verif_trace::push(format!(
+                            "pong,{},{}",
+                            addr,
+                            crate::verif_trace::ns(stream.inner.last_pong)
+                        ));
+                    }
+
                     // If the stream has timed out without sending a close frame, process it as a disconnection.
                     if let Some(ping) = &self.heartbeat {
+                        #[cfg(humphrey_verif)]
+                        let verif_before = crate::verif_trace::now_ns();
+
                         if stream.inner.last_pong.elapsed() >= ping.timeout {
+                            #[cfg(humphrey_verif)]
+                            crate::verif_trace::push(format!(
+                                "hb,{},{},{}",
+                                addr,
+                                crate::verif_trace::ns(stream.inner.last_pong),
+                                crate::verif_trace::now_ns()
+                            ));
+
                             if let Some(handler) = &disconnect_handler {
+                                #[cfg(humphrey_verif)]
+                                crate::verif_trace::push(format!("d,x,{}", addr));
+
                                 let async_stream = AsyncStream::disconnected(
                                     addr,
                                     self.message_sender.clone(),
@@ -490,13 +588,27 @@ where
                                     .execute(move || (cloned_handler)(async_stream, cloned_state));
                             }
 
+                            #[cfg(humphrey_verif)]
+                            crate::verif_trace::push(format!("rm,{}", addr));
+
                             self.streams.remove(&addr);
                             continue;
                         }
+
+                        #[cfg(humphrey_verif)]
+                        crate::verif_trace::quiet(format!(
+                            "hbno,{},{},{}",
+                            addr,
+                            crate::verif_trace::ns(stream.inner.last_pong),
+                            verif_before
+                        ));
                     }
 
                     // If a ping is due, send one.
                     if will_ping {
+                        #[cfg(humphrey_verif)]
+                        crate::verif_trace::push(format!("w,{},ping", addr));
+
                         stream.inner.ping().ok();
                     }
                 }
@@ -510,7 +622,17 @@ where
             {
                 let stream_state = Arc::new(StreamState::default());
 
+                #[cfg(humphrey_verif)]
+                crate::verif_trace::push(format!(
+                    "adm,{},{}",
+                    addr,
+                    crate::verif_trace::ns(stream.last_pong)
+                ));
+
                 if let Some(handler) = &connect_handler {
+                    #[cfg(humphrey_verif)]
+                    crate::verif_trace::push(format!("d,c,{}", addr));
+
                     let async_stream =
                         AsyncStream::new(addr, self.message_sender.clone(), stream_state.clone());
                     let cloned_state = self.state.clone();
@@ -533,14 +655,41 @@ where
             for message in self.outgoing_messages.try_iter() {
                 match message {
                     OutgoingMessage::Message(addr, message) => {
+                        #[cfg(humphrey_verif)]
+                        crate::verif_trace::push(format!(
+                            "o,u,{},{}",
+                            addr,
+                            crate::verif_trace::digest(&message)
+                        ));
+
                         if let Some(stream) = self.streams.get_mut(&addr) {
+                            #[cfg(humphrey_verif)]
+                            crate::verif_trace::push(format!(
+                                "w,{},{}",
+                                addr,
+                                crate::verif_trace::digest(&message)
+                            ));
+
                             // Ignore errors with sending for now, and deal with them in the next iteration.
                             stream.inner.send(message).ok();
                         }
                     }
                     OutgoingMessage::Broadcast(message) => {
+                        #[cfg(humphrey_verif)]
+                        let verif_digest = crate::verif_trace::digest(&message);
+                        #[cfg(humphrey_verif)]
+                        crate::verif_trace::push(format!("o,b,{}", verif_digest));
+                        // `keys()` and `values_mut()` walk the same table in the same order
+                        #[cfg(humphrey_verif)]
+                        let mut verif_keys = self.streams.keys().copied().collect::<Vec<_>>().into_iter();
+
                         let frame = message.to_frame();
                         for stream in self.streams.values_mut() {
+                            #[cfg(humphrey_verif)]
+                            if let Some(verif_addr) = verif_keys.next() {
+                                crate::verif_trace::push(format!("w,{},{}", verif_addr, verif_digest));
+                            }
+
                             // Ignore errors with sending for now, and deal with them in the next iteration.
                             stream.inner.send_raw(&frame).ok();
                         }
@@ -548,11 +697,20 @@ where
                 }
             }
 
+            #[cfg(humphrey_verif)]
+            crate::verif_trace::end();
+
             if let Some(interval) = self.poll_interval {
                 sleep(interval);
             }
         }
         self.thread_pool.stop();
+
+        #[cfg(humphrey_verif)]
+        {
+            crate::verif_trace::push("exit".to_string());
+            crate::verif_trace::flush();
+        }
     }
 
     /// Registers a shutdown signal to gracefully shutdown the app
